@@ -139,9 +139,12 @@ func MapVal(m *expvar.Map, key string) int64 {
 // compiled programs, store, metrics, data; unexported fields included;
 // wall-clock stamps masked) for use in state keys, so that implementation
 // state no harness knows about still separates two histories.
-func (r *RT) StateDump() string {
+func (r *RT) StateDump(mask ...string) string {
 	now := time.Now().UnixNano()
 	txt := vlib.DeepDumpMask(r.R, startNano-int64(time.Hour), now+int64(time.Hour))
+	for _, m := range mask {
+		txt = strings.ReplaceAll(txt, m, "MASKED")
+	}
 	if f := os.Getenv("VERIF_DUMP_STATE"); f != "" {
 		_ = os.WriteFile(f, []byte(txt), 0o644)
 	}
